@@ -137,6 +137,13 @@ def run_reuse(inst):
     name = inst["module"]
     m = zoo.build(name)
     m.record("v", verbose=False)
+    # recordings of synaptic states and currents on the LAST edge of each type (global edge index != rank within its type
+    # when the types interleave): integrate must translate these indices on a copy, not in the module's own table
+    if len(m.edges):
+        for syn in m.synapses:
+            rows = [i for i, t_ in enumerate(m.edges["type"]) if t_ == syn._name]
+            for key in list(syn.synapse_states)[:1] + [f"i_{syn._name}"]:
+                m.select(edges=[rows[-1]]).record(key, verbose=False)
     kw = dict(solver=inst["solver"], voltage_solver=inst["voltage_solver"], delta_t=0.025)
     ps = m.select(nodes=[0]).data_set("radius", 1.3, None)
     if len(m.edges):
